@@ -488,6 +488,91 @@ func checkC07(c *Ctx, r *Report) {
 					}
 				}
 			}
+			// ... or the comparison sits in a bool helper (ifRangeMatches): it reports a match only for a non-empty tag
+			if !emptyRefused {
+				fromTag := func(v ssa.Value) bool {
+					return derivesFrom(v, func(y ssa.Value) bool {
+						call, ok := y.(*ssa.Call)
+						return ok && strings.Contains(calleeName(call), "ForceUnwrapLeft")
+					})
+				}
+				for _, hc := range helperContexts(f, 2) {
+					g := hc.fn
+					bi := -1 // the bool among the helper's results (matches bool, validator string)
+					for ri := 0; ri < g.Signature.Results().Len(); ri++ {
+						if isBoolType(g.Signature.Results().At(ri).Type()) && bi < 0 {
+							bi = ri
+						}
+					}
+					if g == f || bi < 0 {
+						continue
+					}
+					usesTag := false
+					eachInstr(g, func(in ssa.Instruction) {
+						if call, ok := in.(*ssa.Call); ok && strings.Contains(calleeName(call), "ForceUnwrapLeft") {
+							usesTag = true
+						}
+					})
+					if !usesTag {
+						continue
+					}
+					all, n := true, 0
+					eachInstr(g, func(in ssa.Instruction) {
+						ret, ok := in.(*ssa.Return)
+						if !ok || isRecoverReturn(ret) {
+							return
+						}
+						vals := retVals(ret)
+						if bi >= len(vals) {
+							return
+						}
+						v := vals[bi]
+						if bv, isC := constBool(v); isC && !bv {
+							return
+						}
+						// a return that may say "match" on the entity-tag arm: it has to know the tag non-empty
+						if !fromTag(v) {
+							tagArm := false
+							for _, fc := range factsAt(g, ret) {
+								if fromTag(fc.cond) {
+									tagArm = true
+								}
+							}
+							if !tagArm {
+								return // the date arm
+							}
+						}
+						n++
+						nonEmpty := false
+						for _, fc := range append(factsAt(g, ret), conjuncts(g, v, 0)...) {
+							cv, positive := stripNot(fc.cond)
+							bo, isB := cv.(*ssa.BinOp)
+							if !isB || (bo.Op != token.EQL && bo.Op != token.NEQ) {
+								continue
+							}
+							var other ssa.Value
+							if k, isK := constString(bo.Y); isK && k == "" {
+								other = bo.X
+							} else if k, isK := constString(bo.X); isK && k == "" {
+								other = bo.Y
+							}
+							if other == nil || !fromTag(other) {
+								continue
+							}
+							isEmpty := (bo.Op == token.EQL) == positive // the condition says "tag is empty"
+							if isEmpty != fc.truth {
+								nonEmpty = true
+							}
+						}
+						if !nonEmpty {
+							all = false
+						}
+					})
+					if all && n > 0 {
+						emptyRefused = true
+					}
+				}
+			}
 			r.Check(emptyRefused, "C07.R5", "an empty If-Range entity-tag is a mismatch", c.Pos(f.Pos()), "the tag taken from If-Range is tested against \"\" and that side returns the mismatch", "an empty If-Range is compared with the stored ETag like any other tag: when the origin sent no ETag both are empty, the comparison succeeds and the range is served although the client's validator names nothing")
 		}
 		// a date validator matches only the stored Last-Modified itself: later as well as earlier dates are mismatches
